@@ -4,8 +4,10 @@ let table : (Stdlib.String.t * (z list -> z list)) list = [   (* Stdlib.: the ex
   ("coll", run_coll);
   ("kernel", run_kernel);
   ("frag", run_frag);
+  ("defaults", run_defaults);
   ("commands", run_commands);
   ("savefs", run_savefs);
+  ("rset", run_rset);
   ("dataconv", run_dataconv);
   ("c3", run_c3);
   ("sig", run_sig);
@@ -13,4 +15,7 @@ let table : (Stdlib.String.t * (z list -> z list)) list = [   (* Stdlib.: the ex
   ("iskw", run_iskw);
   ("metaedit", run_metaedit);
   ("ecoremm", run_ecoremm);
+  ("xmiattr", run_xmiattr);
+  ("jsonval", run_jsonval);
+  ("refload", run_refload);
 ]
